@@ -786,8 +786,67 @@ def constructor_race(res, tier, seed, t_end):
         sys.setswitchinterval(old)
 
 
+def run_C19(res, tier, seed, t_end, bad):
+    import scripts as Sx
+    where = Sx.available()
+    if where is None:
+        res.notes.append('no Lua host available')
+        res.findings.append({'kind': 'setup', 'verdict': 'unconstrained', 'what': 'correspondence:C19: no lupa module (stand-in missing)'})
+        return
+    res.notes.append('Lua host: %s' % where)
+    plan = Sx.plan_scripts(budget(tier, 45, 70))
+    for h in range(budget(tier, 40, 1000)):
+        if time.time() > t_end:
+            res.notes.append('time budget reached')
+            break
+        hseed = (seed * 1000003 + h * 7919 + 19) & 0x7fffffff
+        rng = random.Random(hseed)
+        version = rng.choice([6, 7])
+        s = corr.Session(version, hseed, True, (Mn.mon_replies, Mn.mon_error_nochange_scripts), scripts=True)
+        s.violations = []
+        events, div = [], None
+        try:
+            for ev in plan(s, rng):
+                events.append(ev)
+                s.step(ev)
+        except corr.Divergence as d:
+            div = d
+        res.absorb(s)
+        if len(res.samples) < 3:
+            res.samples.append({'version': version, 'seed': hseed, 'events': [(corr.ev_json(t[1]), t[2]) for t in s.trace[-4:]]})
+        if s.violations:
+            v = s.violations[0]
+            res.findings.append({'kind': 'monitor', 'property': v.prop, 'clause': v.clause, 'detail': v.detail, 'version': version, 'seed': hseed,
+                                 'scripts': True, 'events': [corr.ev_json(e) for e in events[:v.index + 1]]})
+            return
+        if div is not None:
+            small = corr.shrink(events, version, hseed, lambda evs: _still_diverges(evs, version, hseed), 120)
+            s2 = corr.Session(version, hseed, True, (), scripts=True)
+            d2 = div
+            try:
+                s2.run(small)
+            except corr.Divergence as d:
+                d2 = d
+            res.findings.append({'kind': 'divergence', 'verdict': Cp.judge(d2, None), 'what': d2.what, 'version': version, 'seed': hseed,
+                                 'scripts': True, 'events': [corr.ev_json(e) for e in small], 'impl': d2.impl_side, 'model': d2.model_side,
+                                 'at': corr.ev_json(d2.event)})
+            return
+
+
+def _still_diverges(evs, version, seed):
+    s = corr.Session(version, seed, True, (), scripts=True)
+    try:
+        s.run(evs)
+        return False
+    except corr.Divergence:
+        return True
+    except Exception:
+        return False
+
+
 RUNNERS = {
     'C11': run_C11,
+    'C19': run_C19,
     'C12': run_C12,
     'C20': run_C20,
     'C14': run_C14,
